@@ -4,6 +4,7 @@ import (
 	"encoding/json"
 	"flag"
 	"fmt"
+	"io"
 	"math/rand"
 	"runtime"
 	"strings"
@@ -61,6 +62,19 @@ func (x secFM) Format(st fmt.State, verb rune) {
 	fmt.Fprintf(st, "|%v|%d|%s", x.secret, 3, "lit")
 }
 
+// a Formatter that writes through io.WriteString (pp.WriteString, not pp.Write)
+type secWS struct{ secret string }
+
+func (x secWS) Format(st fmt.State, verb rune) { io.WriteString(st, "ws:"+x.secret) }
+
+// a Stringer whose method dies with a runtime error that spells out a value-dependent number
+type secIdx struct{ n int }
+
+func (x secIdx) String() string {
+	arr := []int{1, 2, 3}
+	return fmt.Sprint(arr[x.n%100000+3])
+}
+
 type secErr struct{ secret string }
 
 func (e secErr) Error() string { return "err " + e.secret }
@@ -74,7 +88,8 @@ func secretsExtra(s string, n int, ps string, pn int) []interface{} {
 		}{secSV{ps}, secSM{s}}, secFM{s}, redact.Unsafe(secFM{s}),
 		redact.Safe(ps), redact.Unsafe(s), redact.Unsafe(redact.Safe(s)), redact.Safe(redact.Unsafe(ps)), []interface{}{redact.Unsafe(n), redact.Safe(pn)},
 		redact.Sprintf("%s %d", s, n), []redact.RedactableString{redact.Sprint(s)}, redact.Unsafe(redact.Sprintf("x %v", s)),
-		secErr{s}, []error{secErr{s}}, redact.Unsafe(secSM{s}), redact.Unsafe(secSF{s, n}), struct{ sm secSM }{secSM{s}},
+		secErr{s}, []error{secErr{s}}, secWS{s}, redact.Safe(secWS{ps}), []interface{}{redact.Safe(secWS{ps}), secWS{s}}, redact.Unsafe(secWS{s}),
+		secIdx{n}, []interface{}{secIdx{n}, ps}, redact.Safe(secIdx{pn}), redact.Unsafe(secSM{s}), redact.Unsafe(secSF{s, n}), struct{ sm secSM }{secSM{s}},
 	}
 }
 
@@ -140,6 +155,8 @@ func secretsDrive(args []string) {
 			for _, fl := range []string{"8", "-8", ".2", "08.3", "+", "# ", " "} {
 				cases = append(cases, secretsCase{"secrets", "a %" + fl + strings.TrimLeft(v, "+#") + " b", []int{i}, 0})
 			}
+			// literals ending in a rune that shares its last byte with a marker, right before the operand
+			cases = append(cases, secretsCase{"secrets", "n.\u00ba%" + v + "\u20ba", []int{i}, 0}, secretsCase{"secrets", "\u00b9%" + v + "\u203b", []int{i}, 0})
 		}
 		cases = append(cases, secretsCase{"secrets", "", []int{i}, 1}, secretsCase{"secrets", "", []int{i, i}, 2})
 	}
